@@ -80,6 +80,17 @@ fn main() {
             }
             std::process::exit(if out.violations.is_empty() { 0 } else { 1 });
         }
+        Some("gen") => {
+            // rvverif gen <ID> <tier> <choices.json>: print the generated case without running anything
+            let e = find(args.get(2).unwrap_or_else(|| usage()));
+            let tier = if args.get(3).map(|s| s.as_str()) == Some("thorough") { Tier::Thorough } else { Tier::Quick };
+            let text = std::fs::read_to_string(args.get(4).unwrap_or_else(|| usage())).unwrap_or_default();
+            let choices: Vec<u32> = serde_json::from_str(text.trim()).unwrap_or_default();
+            match (e.gen_only)(&choices, tier) {
+                Some(v) => println!("{}", serde_json::to_string_pretty(&v).unwrap_or_default()),
+                None => println!("generator rejects these choices"),
+            }
+        }
         Some("replay") => {
             let e = find(args.get(2).unwrap_or_else(|| usage()));
             let path = PathBuf::from(args.get(3).unwrap_or_else(|| usage()));
